@@ -632,6 +632,30 @@ def local_copy_cases():
                    ["init mb:end", "main ma.n 2", "main ma.peek 20202", "init main:end"])
             ev = [("miss", "mb"), ("miss", "ma"), ("hit", "ma"), ("hit", "ma")]
         yield "cat:imported_name_is_local_copy@" + where, files, out, ev
+    # a module WITHOUT exports (it only acts: prints, registers itself elsewhere) is still initialised exactly once
+    reg = 'print "init reg"\nexport names: [str...] = []\nexport add: fn(str) -> int = fn(n: str) -> int {\n  names.push(n)\n  return names.len()\n}\n'
+    plug = 'print "init plug:begin"\nimport reg\npk = reg.add("plug")\nprint "plug registered " + pk\nprint "init plug:end"\n'
+    for n_importers in (2, 3):
+        files = {"reg.ms": reg, "plug.ms": plug}
+        main = ['print "init main:begin"', "import plug"]
+        out = ["init main:begin", "init plug:begin", "init reg", "plug registered 1", "init plug:end"]
+        ev = [("miss", "plug"), ("miss", "reg")]
+        for k in range(n_importers - 1):
+            files["u%d.ms" % k] = 'print "init u%d"\nimport plug\nexport u%d_v: int = %d\n' % (k, k, k)
+            main.append("import u%d" % k)
+            out.append("init u%d" % k)
+            ev += [("miss", "u%d" % k), ("hit", "plug")]
+        main += ["import reg", 'print "main names " + reg.names.len()', 'print "init main:end"']
+        ev += [("hit", "reg")]
+        out += ["main names 1", "init main:end"]
+        files["main.ms"] = "\n".join(main) + "\n"
+        yield "cat:module_without_exports_imported_%d_times" % n_importers, files, out, ev
+    # ... also when the same file imports it twice, the second time inside a loop body
+    files = {"reg.ms": reg, "plug.ms": plug,
+             "main.ms": 'print "init main:begin"\nfrom 0 to 3 {\n  import plug\n}\nimport reg\nprint "main names " + reg.names.len()\nprint "init main:end"\n'}
+    yield ("cat:module_without_exports_imported_in_a_loop", files,
+           ["init main:begin", "init plug:begin", "init reg", "plug registered 1", "init plug:end", "main names 1", "init main:end"],
+           [("miss", "plug"), ("miss", "reg"), ("hit", "plug"), ("hit", "plug"), ("hit", "reg")])
 
 
 # ----------------------------------------------------------------------------- path spellings
